@@ -409,7 +409,7 @@ class C04(ExtrusionMonitor):
             "while a recovery was owed (hooked lastRetraction.recoverExcluded at the closing step)")
     assumptions = C01.assumptions
     classes = [(3, "e-only", mk(arcs=True)), (2, "e-only-inch", mk(inch=True)), (2, "e-only-rel-xyz", mk(rel=True)),
-               (2, "firmware", mk(fw=True, inch=True)), (2, "g92e-while-retracted", mk(g92e_retracted=True, p_inside=0.5)),
+               (2, "firmware", mk(fw=True, inch=True)), (2, "g92e-while-retracted", mk(g92e_retracted=True, g92e_entry=True, p_inside=0.5)),
                (1, "at", mk(at=True)), (1, "addregion", mk(addregion=True))]
 
     def oracle(self, tr, stats, case):
@@ -437,7 +437,7 @@ class C05(ExtrusionMonitor):
     assumptions = C01.assumptions
     classes = [(4, "e-only", mk(p_inside=0.5)), (2, "e-only-inch-rel", mk(inch=True, rel=True)),
                (3, "firmware", mk(fw=True)), (1, "firmware-rel", mk(fw=True, rel=True, inch=True)),
-               (2, "e-only-g92e", mk(g92e_retracted=True)), (1, "e-only-at", mk(at=True)),
+               (2, "e-only-g92e", mk(g92e_retracted=True, g92e_entry=True, p_inside=0.5)), (1, "e-only-at", mk(at=True)),
                (1, "e-only-arcs", mk(arcs=True))]
 
     def oracle(self, tr, stats, case):
